@@ -43,7 +43,7 @@ RULE = ('stacks of 0..5 middleware components, each implementing any non-empty s
         'from {return, set resp.complete, raise HTTPError, raise HTTPStatus, raise app error with custom handler, with only the default handler, '
         'custom handler re-raising HTTPError / HTTPStatus / a plain exception}; enumerated: every stack of <= 3 (quick) / <= 4 (thorough) components (the largest stacks with 4 of the 8 fault kinds) x every '
         'single-fault placement, and every stack of <= 1 (quick) / <= 2 (thorough) components x every double placement of {complete, HTTPError, handled app error, handler raising}, '
-        'each x both modes x {route, unrouted} (the largest stacks routed only) x WSGI+ASGI; plus random stacks with 0..4 faults; plus ASGI lifespan runs over 0..5 components with any subset '
+        'each x both modes x {route, unrouted} (the largest stacks routed only; 4-component stacks alternate between WSGI and ASGI) x WSGI+ASGI; plus random stacks with 0..4 faults; plus ASGI lifespan runs over 0..5 components with any subset '
         'of process_startup/process_shutdown and a failing one anywhere. non-trivial = at least one middleware/hook/lifespan call was made; '
         'distinct = distinct (stack kind, configuration, action assignment)')
 PARTIAL = ('Proved in Lean: the response-method discipline in both modes (exactly once each, bottom-up, dependent prefix), top-down/stop-at-first for the request and resource loops, '
@@ -369,10 +369,10 @@ def _enumerated(ctx, max_single, max_double):
                 placements += [()] + [((s, f),) for s in sites for f in (FAULTS if n < max_single else FAULTS2)]
             if n <= max_double:
                 placements += [((s1, f1), (s2, f2)) for s1, s2 in itertools.combinations(sites, 2) for f1 in FAULTS2 for f2 in FAULTS2]
-            for pl in placements:
+            for pi, pl in enumerate(placements):
                 for indep in (True, False):
                     for target in (('route', 'none') if n < max(3, max_single) else ('route',)):
-                        for stack in ('wsgi', 'asgi'):
+                        for stack in (('wsgi', 'asgi') if n < 4 else (('wsgi', 'asgi')[(pi + indep) % 2],)):
                             idx += 1
                             if idx % k != i:
                                 continue
@@ -429,7 +429,7 @@ def _requests(ctx):
         for nf, case in _enumerated(ctx, *((3, 1) if ctx.quick else (4, 2))):
             _execute(ctx, sess, hsess, case)
             ctx.count(f'enumerated_{nf}_fault')
-    for j in range(ctx.n(16000, 150000)):
+    for j in range(ctx.n(16000, 100000)):
         case = _random_case(rnd)
         _execute(ctx, sess, hsess, case, via_testing=(j % 16 == 0))
         ctx.count('random')
